@@ -29,11 +29,11 @@ def _tok(eng, name):
     return v, (strs.SymStr([strs.T(v, "dx")]) if eng.symbolic else repr(v))
 
 
-def h_convert(eng, n, vpl, focus, natoms, comments):
+def _convert(eng, n, vpl, focus, natoms, comments, tag="", counts0=(3, 4, 5)):
     from pdb2pqr import io, structures
 
     I, F = (core.sym_int_t, core.sym_float_t) if eng.symbolic else (int, float)
-    counts = [3, 4, 5]
+    counts = list(counts0)
     origin = [-12.5, 0.25, 7.0]
     delta = [[0.5, 0.125, -0.25], [0.0625, 0.75, 0.375], [-0.5, 0.1875, 1.0]]  # deliberately not symmetric
     if "counts" in focus:
@@ -61,7 +61,7 @@ def h_convert(eng, n, vpl, focus, natoms, comments):
     vals = []
     row = []
     for i in range(n):
-        v, t = _tok(eng, f"v{i}")
+        v, t = _tok(eng, f"{tag}v{i}")
         vals.append(v)
         row.append(t)
         if len(row) == vpl or i == n - 1:
@@ -82,23 +82,23 @@ def h_convert(eng, n, vpl, focus, natoms, comments):
         raise core.Inconclusive("layout-string model bypassed in write_cube")
     text = strs.join("", sink.parts) if any(isinstance(p, strs.SymStr) for p in sink.parts) else "".join(sink.parts)
     out = text.split("\n")
-    eng.check(len(out) >= 6 + natoms, "header-present", note=f"cube has only {len(out)} lines")
+    eng.check(len(out) >= 6 + natoms, tag + "header-present", note=f"cube has only {len(out)} lines")
     if len(out) < 6 + natoms:
         return
     h = out[2].split()
-    eng.check(len(h) == 4 and core.same(I(h[0]), natoms), "atom-count", note=f"third line: {out[2]!r}")
+    eng.check(len(h) == 4 and core.same(I(h[0]), natoms), tag + "atom-count", note=f"third line: {out[2]!r}")
     if len(h) == 4:
-        eng.check(And(*[core.close(F(h[1 + k]), origin[k], 5e-7 + 1e-12) for k in range(3)]), "origin", note=f"origin not preserved: {out[2]!r}")
+        eng.check(And(*[core.close(F(h[1 + k]), origin[k], 5e-7 + 1e-12) for k in range(3)]), tag + "origin", note=f"origin not preserved: {out[2]!r}")
     for k in range(3):
         w = out[3 + k].split()
-        eng.check(len(w) == 4, "axis-line", note=f"axis line malformed: {out[3 + k]!r}")
+        eng.check(len(w) == 4, tag + "axis-line", note=f"axis line malformed: {out[3 + k]!r}")
         if len(w) != 4:
             continue
-        eng.check(core.same(I(w[0]), -counts[k]), f"count-{k}", note=f"axis {k}: signed count is not -n (cube convention for Angstrom units): {out[3 + k]!r}")
-        eng.check(And(*[core.close(F(w[1 + j]), delta[k][j], 5e-7 + 1e-12) for j in range(3)]), f"spacing-{k}", note=f"axis {k}: step vector differs from the DX delta line {k}: {out[3 + k]!r}")
+        eng.check(core.same(I(w[0]), -counts[k]), tag + f"count-{k}", note=f"axis {k}: signed count is not -n (cube convention for Angstrom units): {out[3 + k]!r}")
+        eng.check(And(*[core.close(F(w[1 + j]), delta[k][j], 5e-7 + 1e-12) for j in range(3)]), tag + f"spacing-{k}", note=f"axis {k}: step vector differs from the DX delta line {k}: {out[3 + k]!r}")
     for k in range(natoms):
         w = out[6 + k].split()
-        eng.check(len(w) == 5 and core.same(I(w[0]), k + 1), "atom-line", note=f"atom line {k}: {out[6 + k]!r}")
+        eng.check(len(w) == 5 and core.same(I(w[0]), k + 1), tag + "atom-line", note=f"atom line {k}: {out[6 + k]!r}")
     body = out[6 + natoms :]
     toks = []
     per_line_ok = True
@@ -107,13 +107,24 @@ def h_convert(eng, n, vpl, focus, natoms, comments):
         if len(w) > 6:
             per_line_ok = False
         toks += w
-    eng.check(per_line_ok, "six-per-line", note="more than six values on one cube line")
-    eng.check(len(toks) == n, "value-count", note=f"cube holds {len(toks)} values, the DX file {n}")
+    eng.check(per_line_ok, tag + "six-per-line", note="more than six values on one cube line")
+    eng.check(len(toks) == n, tag + "value-count", note=f"cube holds {len(toks)} values, the DX file {n}")
     if len(toks) == n:
         import math
 
         same_val = (lambda t, v: core.same(F(t), v)) if eng.symbolic else (lambda t, v: math.isclose(float(t), v, rel_tol=1e-5, abs_tol=1e-300))
-        eng.check(And(*[same_val(t, v) for t, v in zip(toks, vals)]) if n else True, "values-in-order", note="cube values differ from the DX values / order")
+        eng.check(And(*[same_val(t, v) for t, v in zip(toks, vals)]) if n else True, tag + "values-in-order", note="cube values differ from the DX values / order")
+
+
+def h_convert(eng, n, vpl, focus, natoms, comments):
+    _convert(eng, n, vpl, focus, natoms, comments)
+
+
+def h_two_conversions(eng, n1, n2):
+    """two different grids converted one after the other in one process: the second cube is the second grid
+    (nothing of the first conversion survives in the reader / writer)"""
+    _convert(eng, n1, 3, [], 1, True, tag="first-")
+    _convert(eng, n2, 2, [], 2, False, tag="second-", counts0=(2, 7, 1))
 
 
 def obligations(tier):
@@ -125,6 +136,8 @@ def obligations(tier):
     for focus in (["counts"], ["origin"], ["delta"]):
         for natoms in (0, 2):
             obs.append(Obligation(f"convert-header-{focus[0]}-atoms{natoms}", h_convert, dict(n=7, vpl=3, focus=focus, natoms=natoms, comments=True), group="convert", time_cap=1500))
+    for n1, n2 in ((5, 7),) if tier == "quick" else ((5, 7), (7, 5), (0, 6), (6, 0), (13, 13)):
+        obs.append(Obligation(f"two-conversions-n{n1}-then-n{n2}", h_two_conversions, dict(n1=n1, n2=n2), group="two-conversions", time_cap=1200))
     return obs
 
 
